@@ -405,6 +405,7 @@ RULES = {
     "R22": "`let mut v = Vec::new();` gets its element type written out (the invariants mention v before inference fixes it)",
     "R23": "Arc::new(x) -> arc_new(x) (shared immutable handle); thread::Builder..spawn(move || h.run()) -> spawn_worker(h) (opaque)",
     "R24": "`for (a, b) in xs.iter().zip(ys) {` (ys: Vec by value) -> `for a in xs.iter() { let b = match zip_next(&mut ys) { Some(b) => b, None => break };` (zip's own evaluation order)",
+    "R25": "bindgen idioms: `T { type_: X, ..Default::default() }` -> T_with_type(X) (all-zero default); `e as u8` on a fieldless repr(u8) enum -> named conversion whose table is a Kani layout obligation",
     "R12": "Some(&[fd.as_raw_fd()]) -> fds1(&fd) (one-element descriptor list lent from a File)",
 }
 
